@@ -57,3 +57,16 @@ package registry
 //@   ensures [status_strategy] result1 == nil && o.SubresourceRESTStoreCreater == nil && ("status" in result.SubresourcesREST) ==> o.SubStatus && typeis(result.SubresourcesREST["status"], "*StatusREST") && statusS != nil && statusS != mainS && typeis(statusS.UpdateStrategy, "DefaultStatusRESTStrategy") && unbox(statusS.UpdateStrategy, "DefaultStatusRESTStrategy").RESTCreateUpdateStrategy == o.RESTStrategy
 //@   ensures [no_status_without_flag] result1 == nil && o.SubresourceRESTStoreCreater == nil && !o.SubStatus ==> !("status" in result.SubresourcesREST)
 //@   loop 0: invariant [storage_kept] storage != nil
+
+// The options factory as the gateway's option builders use it (assumed, over a ghost of the last strategy set).
+//@ func (*RESTStorageOptionsFactory).SetRESTStrategy props C20
+//@   trusted "records the strategy as the override of the given kind (map keyed by a struct, not modelled)"
+//@   modifies laststrategy[f]
+//@   ensures laststrategy[f] == strategy
+//@ func (*RESTStorageOptionsFactory).SetHubGroupVersion props C20
+//@   trusted "records the in-memory version of the given kind in the storage factory"
+//@   modifies nothing
+//@ func (*RESTStorageOptionsFactory).GetRESTStorageOptions props C20
+//@   trusted "default options of the kind with the recorded overrides applied; SubStatus is never set here"
+//@   modifies nothing
+//@   ensures result1 == nil ==> result.RESTStrategy == laststrategy[f] && !result.SubStatus && result.SubresourceRESTStoreCreater == nil
